@@ -52,6 +52,8 @@ class Case:
     def pkgs(self):
         if self.case.get('fam') == 'F':
             return ['a', 'b']
+        if self.case.get('fam') == 'E':
+            return ['a', 'b'] if self.P['value']['home'] == 'b' else ['a']
         s = {'a'}
         for a in self.P['atoms']:
             s.add(a['pkg'])
@@ -398,6 +400,8 @@ class Case:
     def files(self, runtime=True):
         if self.case.get('fam') == 'F':
             return front_files(self)
+        if self.case.get('fam') == 'E':
+            return value_files(self)
         fs = {}
         for pkg in self.pkgs():
             d = self.pkgdir(pkg)
@@ -571,6 +575,78 @@ def front_files(rc):
             raise ValueError(form)
     wire_go = ('//go:build wireinject\n// +build wireinject\n\npackage %s\n\nimport (\n%s)\n\n%s%s {\n%s}\n' % (pkg, imp, pre, sig, body))
     return {rc.dir + '/lib.go': FRONT_LIB % {'pkg': pkg}, rc.dir + '/b/b.go': FRONT_B, rc.dir + '/wire.go': wire_go}
+
+
+VALUE_HOME = '''package %(pkg)s
+
+import (
+	"math"
+
+	"github.com/google/wire"
+)
+
+type ST struct {
+	A int
+	b int
+}
+
+func (s ST) Meth() int { return s.A + 100 }
+
+type MyInt int
+
+var ExpInt = 7
+var unexpInt = 8
+
+const ExpC = 3
+const unexpC = 4
+
+var ExpStr = "hello"
+var ExpArr = [3]int{1, 2, 3}
+var ExpSl = []int{1, 2, 3, 4, 5, 6}
+var ExpMap = map[string]int{"k": 5, "a": 1}
+var ExpPtr = &ExpInt
+var ExpStruct = ST{A: 1, b: 2}
+var Calls int
+
+func ExpFn() int { Calls++; return 9 }
+
+var ExpFnVar = ExpFn
+var ExpCh = func() chan int { c := make(chan int, 8); c <- 1; c <- 2; c <- 3; c <- 4; return c }()
+var ExpAny interface{} = 5
+var _ = math.Pi
+
+var SetV = wire.NewSet(%(item)s)
+
+func Home() %(ty)s { return %(expr)s }
+'''
+
+
+def value_files(rc):
+    v = rc.P['value']
+    e, home, marker = v['e'], v['home'], v['marker']
+    expr = e['go'].replace('@', '')
+    ty_home = e['sort'].replace('@', '')
+    ty_inj = e['sort'].replace('@', 'b.' if home == 'b' else '')
+    if marker == 'InterfaceValue':
+        item = 'wire.InterfaceValue(new(interface{}), %s)' % expr
+        ty_home = ty_inj = 'interface{}'
+        homeexpr = expr
+    else:
+        item = 'wire.Value(%s)' % expr
+        homeexpr = expr
+    pkg = rc.pkgname
+    fs = {}
+    hp = pkg if home == 'a' else 'b'
+    fs[rc.pkgdir(home) + '/home.go'] = VALUE_HOME % {'pkg': hp, 'item': item, 'ty': ty_home, 'expr': homeexpr}
+    q = '' if home == 'a' else 'b.'
+    imp = '\t"github.com/google/wire"\n' + ('' if home == 'a' else '\tb "%s"\n' % rc.pkgpath('b'))
+    fs[rc.dir + '/wire.go'] = ('//go:build wireinject\n// +build wireinject\n\npackage %s\n\nimport (\n%s)\n\nfunc Inject() %s {\n\tpanic(wire.Build(%sSetV))\n}\n'
+                               % (pkg, imp, ty_inj, q))
+    imp2 = '\t"%s/rt"\n' % MOD + ('' if home == 'a' else '\tb "%s"\n' % rc.pkgpath('b'))
+    fs[rc.dir + '/drive.go'] = ('package %s\n\nimport (\n%s)\n\nvar _ func() %s = Inject\n\nfunc VerifDrive() {\n\trt.Reset(%d, %s, "Inject", 1)\n'
+                                '\trt.Note("home", %sHome())\n\trt.Note("inj", Inject())\n\trt.Note("inj", Inject())\n}\n'
+                                % (pkg, imp2, ty_inj, rc.ci, json.dumps(rc.case['key']), q))
+    return fs
 
 
 def write_files(root, fs):
